@@ -625,6 +625,92 @@ func c12Forced(c *vk.Ctx) bool {
 		c.Count("forced_packet_pending_vs_closed_handle", 1)
 		c.Eval(fmt.Sprintf("forced|packet|pending=%d|closed-handle-reads", nPending))
 
+		// --- packet: the fan-out goroutine has TAKEN h1's read request (the datagram is h1's now) and
+		// h1 closes before the answer is written: the datagram reaches h1's pending read, or it is
+		// not consumed and reaches the open handle - it never vanishes ---
+		{
+			m = service.NewListenerManager()
+			port = freePort()
+			addr = fmt.Sprintf("127.0.0.1:%d", port)
+			q1, err := m.ListenPacket(addr)
+			if err == nil {
+				q2, _ := m.ListenPacket(addr)
+				held, release := holdPoint("packet.fanout.beforeRespond")
+				type rres struct {
+					id  uint64
+					err error
+				}
+				r1 := make(chan rres, 1)
+				go func() {
+					b := make([]byte, 64)
+					n, _, err := q1.ReadFrom(b)
+					if err == nil && n >= 8 {
+						r1 <- rres{u64(b[:8]), nil}
+					} else {
+						r1 <- rres{0, err}
+					}
+				}()
+				time.Sleep(2 * time.Millisecond) // h1's read is offered (h2 is not reading yet)
+				uu, _ := net.DialUDP("udp", nil, &net.UDPAddr{IP: net.IPv4(127, 0, 0, 1), Port: port})
+				id := nextID(c.Batch)
+				uu.Write(putU64(id))
+				select {
+				case <-held:
+					closedCh := make(chan struct{})
+					go func() { q1.Close(); close(closedCh) }()
+					time.Sleep(3 * time.Millisecond) // the close is under way (or done) while the answer is pending
+					release()
+					service.VerifSetPointHook(nil)
+					var got uint64
+					select {
+					case rr := <-r1:
+						if rr.err == nil {
+							got = rr.id
+						} else if !errors.Is(rr.err, net.ErrClosed) {
+							c.Violation("C12/pending-call-wrong-error-on-close", map[string]any{"err": rr.err.Error(), "kind": "packet"})
+							return false
+						}
+					case <-time.After(c12B):
+						c.Violation("C12/pending-call-not-unblocked-by-close", map[string]any{"kind": "packet", "phase": "forced read-request-taken vs close"})
+						return false
+					}
+					if got == 0 {
+						// h1 reported "closed": then the datagram must still be there for the open handle
+						r2 := make(chan uint64, 1)
+						go func() {
+							b := make([]byte, 64)
+							q2.SetReadDeadline(time.Now().Add(c12B))
+							if n, _, err := q2.ReadFrom(b); err == nil && n >= 8 {
+								r2 <- u64(b[:8])
+							} else {
+								r2 <- 0
+							}
+						}()
+						select {
+						case got = <-r2:
+						case <-time.After(c12B + time.Second):
+						}
+					}
+					if got != id {
+						c.Violation("C12/forced/datagram-lost-when-reading-handle-closed", map[string]any{"history": "h1.ReadFrom pending, datagram arrives, fan-out takes h1's request, h1.Close, fan-out answers", "h1_result": "net.ErrClosed", "open_handle_received": got})
+						return false
+					}
+					<-closedCh
+					c.Count("forced_packet_request_taken_vs_close", 1)
+					c.Eval("forced|packet|request-taken|reader-closes")
+				case <-time.After(c12B):
+					release()
+					c.Inconclusive("forced: packet.fanout.beforeRespond not reached")
+				}
+				service.VerifSetPointHook(nil)
+				uu.Close()
+				q2.Close()
+				if !c12Released(c, "packet", addr) {
+					return false
+				}
+			}
+		}
+
 		// --- an accept that has fetched the handle's channel but not yet started to wait, while the
 		// last handle closes and the shared socket goes away: it must end with ErrClosed ---
 		for sub := 0; sub < 3; sub++ {
@@ -1105,6 +1191,7 @@ func init() {
 			c.Require("forced_accept_racing_last_close")
 			c.Require("forced_reacquire_during_last_close")
 			c.Require("forced_two_handles_accept_vs_close")
+			c.Require("forced_packet_request_taken_vs_close")
 			c.Require("fd_exhaustion_recoveries")
 			c12Run(c)
 		},
